@@ -79,6 +79,15 @@ def note_fragments(fname, note_kw):
     frags = [f"`{fname}("]
     for k, v in note_kw:
         frags.append(f"{k}=" + (repr(terms.dec(v)) if is_scalar(v) else ""))
+        if not is_scalar(v) and isinstance(v, dict) and "arr" in v:
+            # an array argument: the note must show the array that was passed (the repr of its elements, in order), not the
+            # storage object it was loaded from
+            for e in v["arr"][1][:6]:
+                if e != "M" and not (isinstance(e, dict) and "arr" in e):
+                    try:
+                        frags.append(repr(terms.dec(e)))
+                    except Exception:  # noqa: BLE001
+                        pass
     return frags
 
 
